@@ -26,15 +26,15 @@ type World struct {
 	cs      *ContractSet
 	repo    string
 
-	globals   map[string]int // "pkgpath.Name" -> reference
-	globalLst []string
-	fnByKey   map[string]*ssa.Function
-	regexOf   map[string]string // global var name (pkg.Name) -> pattern
-	extFn   map[string]*ssa.Function
+	globals        map[string]int // "pkgpath.Name" -> reference
+	globalLst      []string
+	fnByKey        map[string]*ssa.Function
+	regexOf        map[string]string // global var name (pkg.Name) -> pattern
+	extFn          map[string]*ssa.Function
 	intrinsicsUsed map[string]bool
 	assumedUsed    map[string]bool
 	axiomsUsed     map[string]bool
-	baseSentinels  []string // error globals initialised directly by errors.New (the base classes)
+	baseSentinels  []string    // error globals initialised directly by errors.New (the base classes)
 	derivedFrom    [][2]string // (D, B): error global D is initialised by fmt.Errorf wrapping (%w) error global B
 }
 
@@ -300,11 +300,18 @@ type Addr struct {
 	isMap   bool          // whole map content (modifies mapOf(m))
 	mapT    *types.Map
 	elem    types.Type // type of the addressed value
+	// field of a struct-valued ELEMENT (slices / arrays of struct values): the element has struct
+	// type elemSt and the address designates its field path elemPath; the memory is the element
+	// memory of elemSt, read by projection and written by functional update of the element.
+	elemSt   types.Type
+	elemPath []int
 }
 
 // memFor returns the memory an address lives in (leaf addresses only).
 func (w *World) memFor(a *Addr) MemRef {
 	switch {
+	case a.isElem && a.elemSt != nil:
+		return w.reg.elemMem(a.elemSt)
 	case a.isElem:
 		return w.reg.elemMem(a.elem)
 	case a.st != nil && len(a.path) > 0:
@@ -341,11 +348,11 @@ func (w *World) loadAt(s *State, use func(MemRef), a *Addr) Term {
 		}
 		return mkTerm(w, fmt.Sprintf("(mk-St%d %s)", idx, strings.Join(fs, " ")), a.elem)
 	}
-	if _, ok := a.elem.Underlying().(*types.Struct); ok && a.isElem {
-		panic(unsupported("arrays/slices of struct values are outside the subset"))
-	}
 	m := w.memFor(a)
 	mt := stateMem(s, use, m)
+	if a.isElem && a.elemSt != nil {
+		return mkTerm(w, w.projPath(sel(innerOf(s, m, mt, a.base), a.idx), a.elemSt, a.elemPath), a.elem)
+	}
 	if a.isElem {
 		return mkTerm(w, sel(innerOf(s, m, mt, a.base), a.idx), a.elem)
 	}
@@ -369,11 +376,15 @@ func (w *World) storeAt(s *State, use func(MemRef), a *Addr, v string) {
 		}
 		return
 	}
-	if _, ok := a.elem.Underlying().(*types.Struct); ok && a.isElem {
-		panic(unsupported("arrays/slices of struct values are outside the subset"))
-	}
 	m := w.memFor(a)
 	mt := stateMem(s, use, m)
+	if a.isElem && a.elemSt != nil {
+		in := innerOf(s, m, mt, a.base)
+		nv := sto(in, a.idx, w.updPath(sel(in, a.idx), a.elemSt, a.elemPath, v))
+		s.mem[m.Name] = sto(mt, a.base, nv)
+		s.noteInner(m.Name, a.base, nv)
+		return
+	}
 	if a.isElem {
 		nv := sto(innerOf(s, m, mt, a.base), a.idx, v)
 		s.mem[m.Name] = sto(mt, a.base, nv)
@@ -399,4 +410,32 @@ func (w *World) leafAddrs(a *Addr) []*Addr {
 		return out
 	}
 	return []*Addr{a}
+}
+
+// projPath projects field path `path` out of the struct value term v (of struct type t).
+func (w *World) projPath(v string, t types.Type, path []int) string {
+	for _, f := range path {
+		st := t.Underlying().(*types.Struct)
+		v = fmt.Sprintf("(St%d_f%d %s)", w.reg.structIndex(st), f, v)
+		t = st.Field(f).Type()
+	}
+	return v
+}
+
+// updPath returns the struct value v (of struct type t) with the field at `path` replaced by nv.
+func (w *World) updPath(v string, t types.Type, path []int, nv string) string {
+	if len(path) == 0 {
+		return nv
+	}
+	st := t.Underlying().(*types.Struct)
+	idx := w.reg.structIndex(st)
+	var fs []string
+	for i := 0; i < st.NumFields(); i++ {
+		cur := fmt.Sprintf("(St%d_f%d %s)", idx, i, v)
+		if i == path[0] {
+			cur = w.updPath(cur, st.Field(i).Type(), path[1:], nv)
+		}
+		fs = append(fs, cur)
+	}
+	return fmt.Sprintf("(mk-St%d %s)", idx, strings.Join(fs, " "))
 }
